@@ -154,3 +154,7 @@ func (s CookieHashSelection) VerifFallback() Selector { return s.fallback }
 // VerifDialError wraps err the way the HTTP transport's dialer does, so that a probe
 // transport outside this package can report "the connection could not be established".
 func VerifDialError(err error) error { return DialError{err} }
+
+// VerifActiveHealthCheckAll runs one round of active health checks now (one goroutine per
+// upstream, exactly what the checker's ticker does); the caller waits for the counters to move.
+func (h *Handler) VerifActiveHealthCheckAll() { h.doActiveHealthCheckForAllHosts() }
